@@ -223,7 +223,8 @@ def build_problem(run):
     D, geo = run.D, run.geo
     lb, ub, plb, pub, logc = P.geometry(geo, D)
     x0 = P.start_point(job.get("x0", "in"), geo, D)
-    consf = P.constraint(job.get("cons"), geo, D)
+    raw = P.constraint(job.get("cons"), geo, D)
+    consf = None if raw is None else (lambda X: np.asarray(raw(X)) > 0)  # boolean oracle: violated <=> value > 0 / True
     run.lb, run.ub, run.logc, run.consf = lb, ub, logc, consf
 
     cons_wrapped = None
@@ -231,7 +232,7 @@ def build_problem(run):
 
         def cons_wrapped(X):
             run.cons_calls.append(np.array(X, dtype=float, copy=True))
-            return consf(X)
+            return raw(X)
 
     kw = dict(x0=x0, lower_bounds=lb.reshape(1, D).copy(), upper_bounds=ub.reshape(1, D).copy(),
               plausible_lower_bounds=plb.reshape(1, D).copy(), plausible_upper_bounds=pub.reshape(1, D).copy(),
